@@ -130,6 +130,11 @@ def sequence(draw):
         if draw(st.integers(0, 3)) == 0:
             steps.append(("reattach_same_failing", draw(st.sampled_from([0x02, 0x08, 0x18]))))
             steps.append(("cmd", draw(st.sampled_from(sorted(CMDS)))))
+        if draw(st.integers(0, 3)) == 0:
+            # the same device object is attached again after the unit behind it has changed (another medium
+            # changer slot, a re-provisioned LUN): the probe is repeated and decides anew
+            steps.append(("reattach_same_changed", draw(types)))
+            steps.append(("cmd", draw(st.sampled_from(sorted(CMDS)))))
     return steps
 
 
@@ -180,6 +185,18 @@ def check_sequence(steps):
                     nt = True
                 history.append([dev, tgt, devtype, dev.opcodes, len(tgt.log), kind])
                 cur = (dev, tgt, devtype, setname)
+            elif step[0] == "reattach_same_changed":
+                dev, tgt, devtype, setname = cur
+                tgt.devtype = step[1]
+                before = len(tgt.log)
+                with lib("re-attach the same device object"):
+                    s(dev)
+                setname = judge_attached(dev, tgt, step[1], nlog_before=before)
+                history[-1][2] = step[1]
+                history[-1][3] = dev.opcodes
+                history[-1][4] = len(tgt.log)
+                cur = (dev, tgt, step[1], setname)
+                nt = True
             elif step[0] == "reattach_same_failing":
                 # probing the current device again fails (CHECK CONDITION / BUSY / RESERVATION CONFLICT on the
                 # INQUIRY): the error surfaces and the selection made earlier is still in force
@@ -238,7 +255,8 @@ def check_sequence(steps):
     kinds = sorted({st_[3] for st_ in steps if st_[0] == "attach"})
     return nt, ["seq_" + k for k in kinds] + (["reattach"] if len(history) > 1 else []) + (
         ["failed_reattach"] if any(st_[0] == "reattach_same_failing" for st_ in steps) else []) + (
-        ["subclassed_facade"] if any(st_[0] == "facade" for st_ in steps) else [])
+        ["subclassed_facade"] if any(st_[0] == "facade" for st_ in steps) else []) + (
+        ["reattach_same_changed"] if any(st_[0] == "reattach_same_changed" for st_ in steps) else [])
 
 
 def run(ctx):
